@@ -1,3 +1,211 @@
-import LunarVerif.Spec.C06
+import LunarVerif.Proofs.C06Ops
+/-!
+# C06 — Queued requests: one verdict within TTL, priority order, bounded queue
+
+Property theorems only (helpers live in `Proofs/C06*.lean`).  The model (`Model/C06.lean`) is an
+interleaving transition system at critical-section granularity: request threads, the processing
+loop, the TTL watcher and shutdown.  `run cfg s acts` applies an arbitrary list of thread actions
+(`Act`), an action that is not enabled being a no-op; the theorems quantify over ALL such schedules,
+all configurations (`queue_size`, TTL, quota maximum and window) and all start instants.
+`noCancel acts` = the schedule contains no shutdown.
+
+Parts of the property the unchanged code violates are stated as `_violation_witness` theorems
+(machine-checked runs of the model, the same runs as `corpus/C06/F06?.ops`, which replay on the real
+processor) next to what does hold (`priority_strict`, `size_bound_sequential`, `one_verdict`).
+Not proved here: (T) the upper bound "no later than TTL + slack" and liveness — they depend on
+real time and scheduler fairness and are measured by the harness, see `notes/C06.md`.
+-/
 namespace LunarVerif.C06
+
+/-! ### (V) exactly one verdict -/
+
+/-- Without shutdown, under every schedule: no panic; every request's waiter is signalled (Done) at
+most once — exactly once iff the request reached state `processed` —; the WaitGroup counter is 1
+before and 0 after; and an `Execute` call that returned did so after that single Done, with the
+verdict that Done carried. -/
+theorem one_verdict (cfg : Cfg) (t0 : Nat) (acts : List Act) (hn : noCancel acts) :
+    let s := run cfg (St.init t0) acts
+    s.panicked = false ∧
+    ∀ i, (s.reqs i).dones ≤ 1 ∧
+         ((s.reqs i).dones = 1 ↔ (s.reqs i).st = .processed) ∧
+         (s.reqs i).wg = 1 - (s.reqs i).dones ∧
+         ∀ a, (s.reqs i).pc = .returned a → (s.reqs i).dones = 1 ∧ a = ((s.reqs i).res == .success) := by
+  intro s
+  have h : InvA s := invA_run cfg acts (St.init t0) hn (invA_init t0)
+  refine ⟨h.np, fun i => ?_⟩
+  have hd := h.dn i
+  have hw := h.wg i
+  refine ⟨?_, ?_, ?_, ?_⟩
+  · rw [hd]; split <;> omega
+  · rw [hd]; split <;> simp_all
+  · rw [hd, hw]; split <;> simp
+  · intro a ha
+    have := h.rt i a ha
+    refine ⟨?_, this.2⟩
+    rw [hd, this.1]; simp
+
+/-- The same on the observable history: the Spec predicate (V) holds of the trace of every
+schedule without shutdown. -/
+theorem one_verdict_observable (cfg : Cfg) (t0 : Nat) (acts : List Act) (hn : noCancel acts) :
+    scan verdictOk [] (run cfg (St.init t0) acts).trace.reverse = true := by
+  have h := (invAT_run cfg acts (St.init t0) hn (invA_init t0) (invT_init t0)).2
+  rw [scan_reverse]; exact h.tv
+
+/-- non-vacuity: in the F06a scenario request 0 is allowed, request 2 is allowed, each after exactly
+one Done (13 macro-operations, no shutdown). -/
+example :
+    let s := (runOps ⟨5, 2000, 1, 1000⟩ { s := St.init 1700000000000 }
+      [.arrive 1, .tick, .tick, .arrive 1, .arrive 1, .tick, .tick, .tick, .tick, .tick, .tick, .tick, .tick]).s
+    (s.reqs 0).pc = .removed ∧ (s.reqs 0).dones = 1 ∧ (s.reqs 2).res = .success ∧ (s.reqs 2).dones = 1 ∧
+    (s.reqs 1).pc = .parked ∧ (s.reqs 1).dones = 0 := by
+  decide +kernel
+
+/-! ### (Q) allowed only when the quota admits -/
+
+/-- Without shutdown, under every schedule: a request whose result is `success` is one for which the
+quota's last `Inc;Allowed` answered yes; and on the observable history every `allowed` verdict is
+preceded by a successful quota attempt for that request with no refused attempt in between. -/
+theorem allowed_implies_quota (cfg : Cfg) (t0 : Nat) (acts : List Act) (hn : noCancel acts) :
+    let s := run cfg (St.init t0) acts
+    (∀ i, (s.reqs i).res = .success → (s.reqs i).qok = true) ∧
+    scan quotaOk [] s.trace.reverse = true := by
+  intro s
+  have h := invAT_run cfg acts (St.init t0) hn (invA_init t0) (invT_init t0)
+  refine ⟨h.1.qk, ?_⟩
+  rw [scan_reverse]; exact h.2.tq
+
+/-- non-vacuity: with quota 1 per second two requests are queued; after one tick one of them has
+been allowed (quota said yes) and the other refused (quota said no). -/
+example :
+    let s := (runOps ⟨5, 2000, 1, 1000⟩ { s := St.init 1700000000000 } [.arrive 0, .arrive 0, .tick]).s
+    (s.reqs 0).res = .success ∧ (s.reqs 0).qok = true ∧ (s.reqs 1).res = .pending ∧ (s.reqs 1).qok = false := by
+  decide +kernel
+
+/-! ### (P) priority order -/
+
+/-- Without shutdown, under every schedule: whenever the processing loop is about to take the next
+request (`loop = running`), the heap minimum `m` it will pop has the least priority number among
+ALL requests that wait and could be served (parked, state `enqueued`): no waiter with a strictly
+lower priority number is passed over.  (A request is allowed only after having been popped this
+way: `granted i` is reached from `popped i` only.) -/
+theorem priority_strict (cfg : Cfg) (t0 : Nat) (acts : List Act) (hn : noCancel acts) :
+    let s := run cfg (St.init t0) acts
+    ∀ m, s.loop = .running → minItem s.heap = some m →
+      m.prio = (s.reqs m.id).prio ∧
+      ∀ i, (s.reqs i).pc = .parked → (s.reqs i).st = .enqueued → m.prio ≤ (s.reqs i).prio := by
+  intro s m hl hm
+  have h := (invAH_run cfg acts (St.init t0) hn (invA_init t0) (invH_init t0)).2
+  have hmem := minItem_mem _ _ hm
+  refine ⟨(h.hi m hmem).2, fun i hp hs => ?_⟩
+  obtain ⟨x, hx, hid⟩ := h.el i hp hs (by rw [hl]; simp)
+  have := hle_prio _ _ (minItem_le _ _ hm x hx)
+  rw [(h.hi x hx).2, hid] at this
+  exact this
+
+/-- non-vacuity: priorities 5 then 1 arrive, the loop wakes up: the minimum is the request with
+priority 1 (id 1), not the older one. -/
+example :
+    let s := run ⟨5, 2000, 1, 1000⟩ (St.init 0)
+      [.arrive 5, .register 0, .push 0, .arrive 1, .register 1, .push 1, .loopFire]
+    s.loop = .running ∧ (minItem s.heap).map (·.id) = some 1 ∧ (s.reqs 0).pc = .parked ∧ (s.reqs 0).st = .enqueued := by
+  decide +kernel
+
+/-- F06a.  FIFO within one priority does NOT hold: in this run (no shutdown, no overlapping
+arrivals; quota 1 per second, already used by request 0) requests 1 and 2 have equal priority, 1
+is queued before 2, 1's attempt is refused by the quota and 1 is pushed again with a later
+timestamp; 2 is allowed while 1 still waits.  The observable FIFO predicate fails on the history
+and the failure is in the class `f06aAt`. -/
+theorem fifo_violation_witness :
+    ∃ (cfg : Cfg) (t0 : Nat) (ops : List Op), Op.drain ∉ ops ∧
+      let h := (runOps cfg { s := St.init t0 } ops).s.trace.reverse
+      scan (fifoOk cfg) [] h = false ∧ coreOk cfg h = true ∧ finding cfg h = some "F06a" :=
+  ⟨⟨5, 2000, 1, 1000⟩, 1700000000000,
+   [.arrive 1, .tick, .tick, .arrive 1, .arrive 1, .tick, .tick, .tick, .tick, .tick, .tick, .tick, .tick],
+   by decide, by decide +kernel⟩
+
+/-! ### (B) bounded queue -/
+
+/-- Under every schedule (shutdown included) whose arrivals do not overlap — no `arrive` while
+another request is between its slot test and its registration — the number of waiting requests
+(registered, verdict not yet returned) never exceeds `queue_size`. -/
+theorem size_bound_sequential (cfg : Cfg) (t0 : Nat) (acts : List Act)
+    (hs : SeqArr cfg (St.init t0) acts) :
+    (nWaiting (run cfg (St.init t0) acts) : Int) ≤ max cfg.size 0 :=
+  invB_bound cfg _ (invB_run cfg acts (St.init t0) hs (invB_init cfg t0))
+
+/-- non-vacuity: a non-overlapping schedule in which the bound is reached (size 1, one waiter). -/
+example :
+    SeqArr ⟨1, 2000, 1, 1000⟩ (St.init 0) [.arrive 0, .register 0, .push 0] ∧
+    nWaiting (run ⟨1, 2000, 1, 1000⟩ (St.init 0) [.arrive 0, .register 0, .push 0]) = 1 := by
+  refine ⟨⟨fun _ i => by simp [St.init], ?_⟩, by decide +kernel⟩
+  refine ⟨fun ⟨_, h⟩ => (by cases h), ?_⟩
+  exact ⟨fun ⟨_, h⟩ => (by cases h), trivial⟩
+
+/-- F06b.  With overlapping arrivals the bound does NOT hold: `queue_size = 1`, two arrivals pass
+the slot test before either registers; both wait. -/
+theorem size_bound_violation_witness :
+    ∃ (cfg : Cfg) (t0 : Nat) (acts : List Act),
+      ¬ ((nWaiting (run cfg (St.init t0) acts) : Int) ≤ max cfg.size 0) :=
+  ⟨⟨1, 2000, 2, 1000⟩, 0, [.arrive 0, .arrive 0, .register 0, .push 0, .register 1, .push 1], by decide +kernel⟩
+
+/-- The same through the macro-operations of `corpus/C06/F06b.ops`: the observable bound predicate
+fails on the history and the failure is in the class `f06bAt`. -/
+theorem size_bound_violation_observable :
+    ∃ (cfg : Cfg) (t0 : Nat) (ops : List Op),
+      let h := (runOps cfg { s := St.init t0 } ops).s.trace.reverse
+      scan (boundOk cfg) [] h = false ∧ coreOk cfg h = true ∧ finding cfg h = some "F06b" :=
+  ⟨⟨1, 2000, 2, 1000⟩, 1700000000000, [.arriveBegin 0, .arriveBegin 0, .arriveEnd 0, .arriveEnd 1, .tick],
+   by decide +kernel⟩
+
+/-! ### (D) shutdown -/
+
+/-- F06c.  Shutdown is NOT crash-free: request 0 is allowed (Done once) but its removal goroutine
+has not run when the context is cancelled; `StopAll` signals every entry of the watch list,
+request 0 a second time: the WaitGroup counter goes to -1 — the modelled panic.
+(`corpus/C06/F06c.ops`; on the real processor: "sync: negative WaitGroup counter".) -/
+theorem drain_double_done_witness :
+    ∃ (cfg : Cfg) (t0 : Nat) (ops : List Op),
+      let s := (runOps cfg { s := St.init t0 } ops).s
+      s.panicked = true ∧ (s.reqs 0).dones = 2 ∧ (s.reqs 0).wg = -1 ∧
+      finding cfg s.trace.reverse = some "F06c" :=
+  ⟨⟨2, 2000, 2, 1000⟩, 1700000000000, [.holdRemove, .arrive 0, .arrive 0, .tick, .arrive 0, .drain],
+   by decide +kernel⟩
+
+/-- What does hold at shutdown, on a run: with every removal completed, `StopAll` releases all
+waiters and nothing crashes (two waiters, quota that admits nothing). -/
+example :
+    let s := (runOps ⟨3, 2000, 0, 1000⟩ { s := St.init 1700000000000 } [.arrive 0, .arrive 1, .tick, .drain]).s
+    s.panicked = false ∧ s.loop = .exited ∧ (s.reqs 0).pc = .removed ∧ (s.reqs 1).pc = .removed ∧
+    holds ⟨3, 2000, 0, 1000⟩ s.trace.reverse = true := by
+  decide +kernel
+
+/-! ### Connection with the driver / judge -/
+
+/-- A run of macro-operations — exactly what `lvdriver_c06 run` executes and what the harness
+replays on the real processor — is a run of the interleaving model under the flat schedule
+`schedule`; so every theorem above speaks about every driver run. -/
+theorem driver_run_is_model_run (cfg : Cfg) (t0 : Nat) (ops : List Op) :
+    (runOps cfg { s := St.init t0 } ops).s =
+      run cfg (St.init t0) (schedule cfg { s := St.init t0 } ops) :=
+  runOps_eq_run cfg ops _
+
+/-- Partial connection theorem: on every driver run without a `drain` operation, the conjuncts (V)
+and (Q) of the judge's predicate are true of the model's history, and no panic occurs.  (The other
+conjuncts are related to the model by the state-level theorems above and by the three witnesses;
+FIFO, the bound under overlapping arrivals and crash-free shutdown are false — F06a, F06b, F06c.) -/
+theorem driver_runs_verdicts_partial (cfg : Cfg) (t0 : Nat) (ops : List Op) (hd : Op.drain ∉ ops) :
+    let h := (runOps cfg { s := St.init t0 } ops).s.trace.reverse
+    scan verdictOk [] h = true ∧ scan quotaOk [] h = true ∧ scan noPanic [] h = true := by
+  intro h
+  have hn := schedule_noCancel cfg ops { s := St.init t0 } hd
+  have e := driver_run_is_model_run cfg t0 ops
+  refine ⟨?_, ?_, ?_⟩
+  · show scan verdictOk [] (runOps cfg { s := St.init t0 } ops).s.trace.reverse = true
+    rw [e]; exact one_verdict_observable cfg t0 _ hn
+  · show scan quotaOk [] (runOps cfg { s := St.init t0 } ops).s.trace.reverse = true
+    rw [e]; exact (allowed_implies_quota cfg t0 _ hn).2
+  · show scan noPanic [] (runOps cfg { s := St.init t0 } ops).s.trace.reverse = true
+    rw [e, scan_reverse]
+    exact (invAT_run cfg _ (St.init t0) hn (invA_init t0) (invT_init t0)).2.tp
+
 end LunarVerif.C06
